@@ -30,6 +30,8 @@ Variable Aarg : Type.
 Variable cntB : B -> Z.                   (* pvGetCount *)
 Variable addB : Aarg -> B -> B.           (* AddCrt on the bucket that receives the item *)
 Variable remB : Aarg -> B -> option B.    (* Remove on the bucket that loses the item; None = its precondition assertion fails *)
+Variable fullB : B -> bool.               (* IsFull: the test HashSet::pvAddNogrow really performs *)
+Hypothesis full_spec : forall b, goodB b -> 0 <= cntB b <= Z.of_nat cap -> (fullB b = true <-> cntB b = Z.of_nat cap).
 Hypothesis upd_cnt : forall b p, goodB b -> 0 <= p < 2 ^ n -> cntB (updB b p) = cntB b.
 Hypothesis add_spec : forall a b, goodB b -> 0 <= cntB b < Z.of_nat cap ->
   goodB (addB a b) /\ decodeB (addB a b) = decodeB b /\ cntB (addB a b) = cntB b + 1.
@@ -45,7 +47,7 @@ Definition N : nat := Z.to_nat (2 ^ n).
 Fixpoint first_free (s : table) (start : Z) (p : nat) (fuel : nat) : option nat :=
   match fuel with
   | O => None
-  | S f => if Nat.ltb (length (bk s (pidx start p))) cap then Some p else first_free s start (S p) f
+  | S f => if fullB (bd s (pidx start p)) then first_free s start (S p) f else Some p
   end.
 
 Definition add (s : table) (k : Z) (a : Aarg) : option table :=
@@ -91,20 +93,20 @@ Proof.
 Qed.
 
 Lemma first_free_spec s start : forall fuel p q, first_free s start p fuel = Some q ->
-  (p <= q < p + fuel)%nat /\ (length (bk s (pidx start q)) < cap)%nat.
+  (p <= q < p + fuel)%nat /\ fullB (bd s (pidx start q)) = false.
 Proof.
   induction fuel as [|f IH]; intros p q H; cbn [first_free] in H; [discriminate|].
-  destruct (Nat.ltb_spec (length (bk s (pidx start p))) cap) as [Hlt|Hge].
-  - inversion H; subst. split; [lia|exact Hlt].
+  destruct (fullB (bd s (pidx start p))) eqn:Hf.
   - apply IH in H. destruct H as [H1 H2]. split; [lia|exact H2].
+  - inversion H; subst. split; [lia|exact Hf].
 Qed.
 
 Lemma first_free_none s start : forall fuel p, first_free s start p fuel = None ->
-  forall q, (p <= q < p + fuel)%nat -> (cap <= length (bk s (pidx start q)))%nat.
+  forall q, (p <= q < p + fuel)%nat -> fullB (bd s (pidx start q)) = true.
 Proof.
   induction fuel as [|f IH]; intros p H q Hq; [lia|]. cbn [first_free] in H.
-  destruct (Nat.ltb_spec (length (bk s (pidx start p))) cap) as [Hlt|Hge]; [discriminate|].
-  destruct (Nat.eq_dec q p) as [->|Hne]; [exact Hge|]. apply (IH (S p) H). lia.
+  destruct (fullB (bd s (pidx start p))) eqn:Hf; [|discriminate].
+  destruct (Nat.eq_dec q p) as [->|Hne]; [exact Hf|]. apply (IH (S p) H). lia.
 Qed.
 
 Lemma N_val : Z.of_nat N = 2 ^ n.
@@ -124,6 +126,17 @@ Theorem find_sound s k : find s k = true -> exists b, In k (bk s b).
 Proof.
   unfold find. intros H. apply existsb_exists in H. destruct H as (p & _ & Hm).
   apply mem_In in Hm. eexists; exact Hm.
+Qed.
+
+Lemma not_full_room s i : Inv s -> fullB (bd s i) = false -> (length (bk s i) < cap)%nat.
+Proof.
+  intros (Hg & Hc & _) Hf. destruct (Hc i) as [Hci Hli].
+  destruct (Nat.eq_dec (length (bk s i)) cap) as [He|Hne]; [|lia].
+  assert (fullB (bd s i) = true) by (apply (full_spec _ (Hg i)); lia). congruence.
+Qed.
+Lemma full_no_room s i : Inv s -> fullB (bd s i) = true -> (cap <= length (bk s i))%nat.
+Proof.
+  intros (Hg & Hc & _) Hf. destruct (Hc i) as [Hci Hli]. apply (full_spec _ (Hg i)) in Hf; lia.
 Qed.
 
 (* the bytes of bucket i after an insertion that put the key into bucket b at probe p *)
@@ -155,7 +168,7 @@ Theorem add_inv s k a s' : Inv s -> add s k a = Some s' -> Inv s'.
 Proof.
   intros HI Hadd. pose proof HI as (Hg & Hc & Hi). unfold add in Hadd.
   destruct (first_free s (h k) 0 N) as [p|] eqn:Hf; [|discriminate]. inversion Hadd; subst s'; clear Hadd.
-  apply first_free_spec in Hf. destruct Hf as [Hpr Hroom].
+  apply first_free_spec in Hf. destruct Hf as [Hpr Hnf]. pose proof (not_full_room s _ HI Hnf) as Hroom.
   assert (HpN : 0 <= Z.of_nat p < 2 ^ n) by (rewrite <- N_val; lia).
   split; [|split].
   - intros i. cbn [bd]. apply (add_bd_facts s k a p i HI HpN Hroom).
@@ -182,13 +195,13 @@ Proof.
 Qed.
 
 (* insertion fails only when NO bucket of the table has room *)
-Theorem add_fails_only_if_all_full s k a : add s k a = None ->
+Theorem add_fails_only_if_all_full s k a : Inv s -> add s k a = None ->
   forall b, 0 <= b < 2 ^ n -> (cap <= length (bk s b))%nat.
 Proof.
-  intros Hadd b Hb. unfold add in Hadd.
+  intros HI Hadd b Hb. unfold add in Hadd.
   destruct (first_free s (h k) 0 N) as [p|] eqn:Hf; [discriminate|].
   destruct (probe_seq_covers next n Hn next_spec (h k) b (h_range k) Hb) as (p & Hp & Hpb).
-  rewrite <- Hpb. apply (first_free_none s (h k) N 0 Hf). rewrite <- N_val in Hp. lia.
+  rewrite <- Hpb. apply (full_no_room s _ HI). apply (first_free_none s (h k) N 0 Hf). rewrite <- N_val in Hp. lia.
 Qed.
 
 Lemma remove_first_In k x l : In x (remove_first k l) -> In x l.
@@ -242,6 +255,15 @@ Theorem present_key_found_all_histories b0 ops b k :
 Proof.
   intros Hg Hc0 s Hin. apply (find_present s b k); [|exact Hin].
   apply reachable_inv. split; [intros i; exact Hg|]. split; [intros i; cbn; split; [exact Hc0|lia]|]. intros b' k' [].
+Qed.
+
+Theorem full_only_if_all_full_all_histories b0 ops k a :
+  goodB b0 -> cntB b0 = 0 ->
+  let s := fold_left step ops {| bk := fun _ => []; bd := fun _ => b0 |} in
+  add s k a = None -> forall b, 0 <= b < 2 ^ n -> (cap <= length (bk s b))%nat.
+Proof.
+  intros Hg Hc0 s. apply add_fails_only_if_all_full.
+  apply reachable_inv. split; [intros j; exact Hg|]. split; [intros j; cbn; split; [exact Hc0|lia]|]. intros b' k' [].
 Qed.
 
 (* the bucket counters stay exact: in every reachable table the count bits of every bucket equal the number of its items *)
